@@ -35,9 +35,7 @@ def check(ctx: Ctx):
     ctx.rule("R-REPR.dispatch", "simple_repr / from_repr handle every simple type (str, Number, bool, list, tuple, set, dict, None, SimpleRepr objects, namedtuples, message_type instances)")
     ctx.rule("R-PROTO.c", "every construction of a message class binds its declared fields (positional arity or keywords)")
     ctx.rule("R-WIRE.http", "HTTP transport: header keys written by send_msg are the keys read by do_POST and keep their roles; type round-trips str()/int()")
-    n_pair = R.check_parallel_lists(ctx, "R-REPR.pair", [f for m in repo.modules.values() for f in repo.all_functions(m) if f.name == "_simple_repr"])
-    if n_pair < 2:
-        raise AnalysisError(f"R-REPR.pair: {n_pair} encoders splitting a mapping into parallel lists found (expected >= 2: MGM2 offers, Max-Sum costs)")
+    R.check_zipped_pairs(ctx, "R-REPR.pair", [c for m in repo.modules.values() for c in m.classes.values()], min_pairs=2)
 
     classes = R.simple_repr_classes(repo)
     n_generic = 0
@@ -530,6 +528,22 @@ def _check_dispatch(ctx, repo):
     fr = repo.func(SR, "from_repr")
     ctx.touch(sr)
     ctx.touch(fr)
+    # decoding is a function of the repr alone: no module-level mutable state (memo of generated classes, registry) is consulted or filled
+    from ..aliasrules import _is_mutable_ctor
+    m_sr = repo.module(SR)
+    glob = {}
+    for st in m_sr.tree.body:
+        if isinstance(st, ast.Assign) and len(st.targets) == 1 and isinstance(st.targets[0], ast.Name) and _is_mutable_ctor(st.value):
+            glob[st.targets[0].id] = st
+        elif isinstance(st, ast.AnnAssign) and isinstance(st.target, ast.Name) and st.value is not None and _is_mutable_ctor(st.value):
+            glob[st.target.id] = st
+    for fn in (sr, fr):
+        used = [n for n in ast.walk(fn.node) if isinstance(n, ast.Name) and n.id in glob]
+        ctx.check(not used, "R-REPR.dispatch", f"{fn.name} keeps no state between calls", fn, used[0] if used else fn.node,
+                  f"`{used[0].id if used else ''}` is a module-level container: a class generated for one message (e.g. message_type('stop', [])) and remembered under its type name is "
+                  "re-used for another message kind of the same name with other fields (NCBB's 'stop' carries a field), which is then rejected or mis-built")
+    memo = [d for fn in (sr, fr) for d in fn.node.decorator_list if "cache" in norm(d)]
+    ctx.check(not memo, "R-REPR.dispatch", "simple_repr / from_repr are not memoised", fr, memo[0] if memo else fr.node, "reprs contain dicts / generated classes: results must not be shared between calls")
 
     def isinstance_types(fn, var):
         out = set()
@@ -632,6 +646,7 @@ _CP = "pydcop/infrastructure/computations.py"
 _CM = "pydcop/infrastructure/communication.py"
 _SRF = "pydcop/utils/simple_repr.py"
 VARIANTS = [
+    ("decoded_message_classes_cached_by_type_name", _SRF, ["def from_repr(r):\n", "                M = qual(r['__type__'], args)\n"], ["_factory_classes = {}\n\n\ndef from_repr(r):\n", "                key = (r['__module__'], r['__qualname__'], r['__type__'])\n                if key not in _factory_classes:\n                    _factory_classes[key] = qual(r['__type__'], args)\n                M = _factory_classes[key]\n"], "break", "R-REPR.dispatch"),
     ("mgm2_offer_keys_sorted_values_not", "pydcop/algorithms/mgm2.py", "                var_values, gains = zip(*self.offers.items())\n                r[\"var_values\"] = var_values\n                r[\"gains\"] = gains\n",
      "                r[\"var_values\"] = sorted(self.offers)\n                r[\"gains\"] = list(self.offers.values())\n", "break", "R-REPR.pair"),
     ("n_mgm2_offer_keys_values_lists", "pydcop/algorithms/mgm2.py", "                var_values, gains = zip(*self.offers.items())\n                r[\"var_values\"] = var_values\n                r[\"gains\"] = gains\n",
